@@ -455,6 +455,9 @@ def run(ctx):
     blocks.block_bookkeeping(ctx)
     blocks.packing_offsets(ctx)
     blocks.generalized(ctx)
+    from . import c10 as _c10
+
+    _c10.compat(ctx)  # (tools/wiring.py) grid-function and operator algebra compare spaces through their compatible representations
 
 
 def combinator_shapes(ctx):
